@@ -424,7 +424,7 @@ func (rl *Shell) viMatchBracket() {
 	split, index, pos := rl.line.TokenizeBlock(rl.cursor.Pos())
 
 	switch {
-	case len(split) == 0:
+	case len(split) == 0, index >= len(split):
 		return
 	case pos == 0:
 		adjust = len(split[index])
@@ -992,6 +992,12 @@ func (rl *Shell) viYankWholeLine() {
 	rl.selection.Visual(true)
 
 	bpos, epos := rl.selection.Pos()
+
+	// Nothing to yank on an empty line.
+	if bpos < 0 || epos <= 0 {
+		rl.selection.Reset()
+		return
+	}
 
 	// If selection has a new line, remove it.
 	if (*rl.line)[epos-1] == '\n' {
